@@ -164,4 +164,72 @@ PROPS = {
                        "seal exactly at the threshold step / at timer expiry, no panic (benchmark build: given the length-first sample-tx test), batch encoding injective, Processor/handler use the hash of the exact bytes. "
                        "Engine `batchmaker` drives the real BatchMaker + Processor in BOTH builds (default and --features benchmark) under virtual time and compares sealed bytes, store keys and digests.",
     },
+    "C02": {
+        "lean_modules": ['HotstuffModel.Properties.C02'],
+        "engines": [{'name': 'cons'}],
+        "level": "proof",
+        "level_text": "PARTIAL at the single-node level (see assumptions): the per-call and no-genesis clauses are theorems for arbitrary inputs; exactly-once / gap-free over the node's whole life is decided by the monitor on the real code and by the global theorem of C01.",
+        "trusted_base": TB_COMMON + [
+            "ideal signatures and collision-free digests (DESIGN 3.4): ed25519 and SHA-512 are modelled, not verified",
+            "tokio mpsc channels are FIFO, select! picks any ready branch, a task handles one message at a time; the micro-step model over-approximates every schedule",
+        ],
+        "assumptions": ["the global clause (the attachment point is the previously delivered block; rounds grow along the committed chain) needs agreement among honest nodes and is part of C01's global model; locally proved: no genesis, each commit call delivers a parent-linked run above the watermark that attaches at the watermark", 'RocksDB returns what was written (store model keyed by digest)'],
+        "explanation": 'Per-call specification of Core::commit (ancestor walk with hash-chain fuel, proved never to exhaust) + invariants for every event list; the cons engine runs chain shapes with gaps / several uncommitted ancestors / sync-resumed blocks against the model and checks on the REAL commit channel: no genesis, parent = previous delivery, rounds increase, no duplicates.',
+    },
+    "C05": {
+        "lean_modules": ['HotstuffModel.Properties.C05'],
+        "engines": [{'name': 'cons'}],
+        "level": "proof",
+        "trusted_base": TB_COMMON + [
+            "ideal signatures and collision-free digests (DESIGN 3.4): ed25519 and SHA-512 are modelled, not verified",
+            "tokio mpsc channels are FIFO, select! picks any ready branch, a task handles one message at a time; the micro-step model over-approximates every schedule",
+        ],
+        "assumptions": ["a QC 'for b1' is a verified QC whose hash field is b1's digest; its round field is bound to b1.round only through the signatures (honest nodes sign (digest b, b.round) only)"],
+        "explanation": "Every delivery is justified by a recorded 2-chain b0<-b1<-blk with consecutive rounds, blk checked (leader, signature, verified QC for b1's digest); no other kind of step changes last_committed_round or emits a delivery. The cons engine's monitor checks on the real node that every commit is backed by a valid QC it was shown / assembled for a consecutive-round child.",
+    },
+    "C08": {
+        "lean_modules": ['HotstuffModel.Properties.C08'],
+        "engines": [{'name': 'cons'}],
+        "level": "proof",
+        "trusted_base": TB_COMMON + [
+            "ideal signatures and collision-free digests (DESIGN 3.4): ed25519 and SHA-512 are modelled, not verified",
+            "tokio mpsc channels are FIFO, select! picks any ready branch, a task handles one message at a time; the micro-step model over-approximates every schedule",
+        ],
+        "assumptions": ["the node's own mempool stores a batch before announcing its digest (Processor: write then send; the model's `digest` event does both; checked on the real Processor by the batchmaker engine)"],
+        "explanation": "Invariant Inv5 for every event list: every voted and every delivered block has its payload in the store; blocks parked for payload are released only when the awaited batches are all stored. The cons engine's monitor reads which batches were written before each real vote/commit.",
+    },
+    "C09": {
+        "lean_modules": ['HotstuffModel.Properties.C09'],
+        "engines": [{'name': 'leader'}, {'name': 'cons'}],
+        "level": "proof",
+        "trusted_base": TB_COMMON + [
+            "ideal signatures and collision-free digests (DESIGN 3.4): ed25519 and SHA-512 are modelled, not verified",
+            "tokio mpsc channels are FIFO, select! picks any ready branch, a task handles one message at a time; the micro-step model over-approximates every schedule",
+        ],
+        "assumptions": ['keys are numbered by byte-lexicographic rank (order isomorphism, checked by the leader engine on random 32-byte keys)'],
+        "explanation": "Leader = sorted keys indexed by the translated expression: permutation-invariant, periodic, every authority exactly once per n consecutive rounds (proved for every committee with distinct keys). For every event list: voted blocks are by the round's leader with a valid author signature; own proposals have strictly increasing rounds (never two for one round), are made only as leader and once per Make.",
+    },
+    "C19": {
+        "lean_modules": ['HotstuffModel.Properties.C19'],
+        "engines": [{'name': 'aggregator'}, {'name': 'cons'}],
+        "level": "proof",
+        "trusted_base": TB_COMMON + [
+            "ideal signatures and collision-free digests (DESIGN 3.4): ed25519 and SHA-512 are modelled, not verified",
+            "tokio mpsc channels are FIFO, select! picks any ready branch, a task handles one message at a time; the micro-step model over-approximates every schedule",
+        ],
+        "assumptions": ['Core verifies votes/timeouts before adding them (modelled: handle_vote/handle_timeout)', 'committee keys distinct, total stake < 2^31 for the at-most-once clause'],
+        "explanation": "QCMaker/TCMaker modelled verbatim: a certificate is returned exactly in the step the accumulated distinct verified stake reaches the quorum, verifies, is for exactly the vote's (hash, round), never mixes keys, and cannot be formed twice; every certificate the node sends or proposes with verifies (Inv3). The aggregator engine runs the real Aggregator against the model with an independent crossing-step monitor.",
+    },
+    "C15": {
+        "lean_modules": ['HotstuffModel.Properties.C15', 'HotstuffModel.Properties.C15_decode'],
+        "engines": [{'name': 'codec'}, {'name': 'cons'}],
+        "level": "proof",
+        "level_text": 'PARTIAL: proof of panic-freedom of the models + differential/fuzz tie; Rust panics that are not source-visible (overflow, OOM) are not covered.',
+        "trusted_base": TB_COMMON + [
+            "ideal signatures and collision-free digests (DESIGN 3.4): ed25519 and SHA-512 are modelled, not verified",
+            "tokio mpsc channels are FIFO, select! picks any ready branch, a task handles one message at a time; the micro-step model over-approximates every schedule",
+        ],
+        "assumptions": ['source-visible panics only: arithmetic overflow (round + 1 at 2^64-1 needs a quorum-signed certificate of that round) and allocation failure are outside the model', 'internal-channel expect()s fire only if a sibling task already died; the theorems show no task dies', 'the shapes of three panic-prone statements (F2-F4) are read from the source on every run (Generated/Switches.lean)'],
+        "explanation": "Panics are values of the models: the node model's `panic` field (theorem: none in every reachable state, for arbitrary inputs incl. cross-component digests) and the three-way decoder results (theorem: never `panic` for any byte string). Engines: codec (every decoder vs the real crates under catch_unwind), cons (garbage frames / sync requests in protocol runs, panic hook), fuzz (all three ports of a real node, then functional probes).",
+    },
 }
